@@ -36,6 +36,8 @@ CHUNKSETS = {
     "1024": [b"x" * 1024],
     "1025": [b"x" * 1025],
     "emptychunk": [b"a", b"", b"b"],
+    # more lines in one poll than the consumer's readlines(1024) hint
+    "1100-lines": [b"\n" * 1000, b"\n" * 1100, b"tail"],
 }
 CONSUMERS = ["iterraw", "read", "iterqueue", "readline"]
 
@@ -155,7 +157,7 @@ def run(ctx):
             for co in CONSUMERS:
                 cases.append((cs, co))
     else:
-        for cs in ("a", "empty", "two", "1025", "a-nl-b"):
+        for cs in ("a", "empty", "two", "1025", "a-nl-b", "1100-lines"):
             cases.append((cs, "iterraw"))
         for co in ("read", "iterqueue", "readline"):
             cases.append(("two", co))
